@@ -245,10 +245,18 @@ func frameObligations(w *World, prop string) []*FrameOb {
 		// an engine must not keep a reference to a caller-supplied path slice: AddPaths copies vertices
 		for _, k := range keys {
 			fd := w.prog.Funcs[k]
-			if !strings.Contains(strings.ToLower(fd.Name.Name), "addpath") && !strings.Contains(strings.ToLower(fd.Name.Name), "addsubject") && !strings.Contains(strings.ToLower(fd.Name.Name), "addclip") {
+			if fd.Body == nil || strings.HasPrefix(fd.Name.Name, "Test") {
 				continue
 			}
 			sites := retainedParams(w, fd)
+			isAdd := strings.Contains(strings.ToLower(fd.Name.Name), "addpath") || strings.Contains(strings.ToLower(fd.Name.Name), "addsubject") || strings.Contains(strings.ToLower(fd.Name.Name), "addclip")
+			if len(sites) == 0 && !isAdd {
+				continue // only the engines' Add* entry points are listed when clean
+			}
+			if why, ok := retainAllowed[k]; ok {
+				out = append(out, &FrameOb{Name: "frame.noretain[" + k + "]", OK: true, Detail: "slice parameter kept in a field, allowed: " + why})
+				continue
+			}
 			fo := &FrameOb{Name: "frame.noretain[" + k + "]", OK: len(sites) == 0, Detail: "no caller-supplied slice is stored in an object field", Sites: sites}
 			if !fo.OK {
 				fo.Detail = "caller-supplied slice stored in a field: " + strings.Join(sites, "; ")
@@ -312,6 +320,12 @@ func isExportedAPI(key string, fd *ast.FuncDecl) bool {
 		return false
 	}
 	return true
+}
+
+// retainAllowed: internal functions that keep a slice parameter by design; the argument is never a
+// caller-supplied slice (checked by reading the call sites, listed in the evidence)
+var retainAllowed = map[string]string{
+	"PolyPathBase.AddChild": "a tree node's payload is the polygon it is given; the engines pass freshly built paths (buildPath) and no function writes through PolyPath.polygon (frame.readonly)",
 }
 
 // retainedParams: statements that store a slice parameter (or a sub-slice of it) into a field
